@@ -223,6 +223,11 @@ func TestClean(t *testing.T) {
 			data := wr.data
 			var prev []byte
 			var firstRead *bundle.Bundle
+			if c.Chance("reuseOneBuffer", 1, 4) && !lb.MultiKey {
+				reuseBufferCycles(c, lb, cycles+1)
+				c.Outcome("nt:ok-reused-buffer")
+				return
+			}
 			for cy := 1; cy <= cycles; cy++ {
 				plan := c.DrawReaderPlan("disk.read", len(data), false)
 				rb, err, pi, _, _ := readBundle(c, data, plan)
@@ -274,6 +279,48 @@ func TestClean(t *testing.T) {
 			c.Outcome("nt:ok")
 		})
 	})
+}
+
+// reuseBufferCycles runs write/read cycles the way a tool does with a single
+// bytes.Buffer as destination and source, keeping every read result and
+// checking all of them again at the end.
+func reuseBufferCycles(c *core.Ctx, lb *gen.LBundle, cycles int) {
+	var buf bytes.Buffer
+	cur := lb.ToRepo()
+	var results []*bundle.Bundle
+	for cy := 1; cy <= cycles; cy++ {
+		var err error
+		if pi := c.Guard("Bundle.WriteTo", func() { _, err = cur.WriteTo(&buf) }); pi != nil {
+			c.CheckTotal("Bundle.WriteTo", 0, pi, 0)
+		}
+		if err != nil {
+			if c.Oracle("C03") {
+				c.Violation("rewrite-error", "Bundle.WriteTo", "cycle %d through a reused buffer failed: %v", cy, err)
+			}
+			return
+		}
+		var rb *bundle.Bundle
+		if pi := c.Guard("bundle.Read", func() { rb, err = bundle.Read(&buf) }); pi != nil {
+			c.CheckTotal("bundle.Read", buf.Len(), pi, 0)
+		}
+		if err != nil {
+			if c.Oracle("C03") {
+				c.Violation("read-error", "bundle.Read", "cycle %d through a reused buffer: %v", cy, err)
+			}
+			return
+		}
+		if c.Oracle("C03") {
+			sameAsModel(c, rb, lb, fmt.Sprintf("reused-buffer-cycle%d", cy))
+		}
+		results = append(results, rb)
+		cur = rb
+	}
+	c.Probe("write/read cycles through one reused bytes.Buffer")
+	if c.Oracle("C03") {
+		for i, rb := range results {
+			sameAsModel(c, rb, lb, fmt.Sprintf("reused-buffer-result%d-at-the-end", i+1))
+		}
+	}
 }
 
 func checkWellFormed(c *core.Ctx, wr written, site string) {
@@ -594,6 +641,19 @@ func TestStorageFaults(t *testing.T) {
 			judgeRead(c, blob, rb, err, pi, alloc, "bundle.Read")
 			if pi0 == nil && err0 == nil {
 				judgeRead(c, data, rb0, err0, nil, 0, "bundle.Read/earlier-result-after-later-read")
+				if c.Bool("mutateThenReread") && len(rb0.Exchanges) > 0 {
+					// the caller goes on to modify what it was handed (as sign-bundle does when it
+					// adds Digest headers); reading the same file again must not see any of it
+					for _, ex := range rb0.Exchanges {
+						ex.Response.Header.Add("Digest", "mi-sha256-03=AAAA")
+						ex.Response.Header.Set("X-Touched", "1")
+						if len(ex.Response.Body) > 0 {
+							ex.Response.Body[0] ^= 0xff
+						}
+					}
+					rb1, err1, pi1, alloc1, _ := readBundle(c, data, core.ReaderPlan{ErrAt: -1})
+					judgeRead(c, data, rb1, err1, pi1, alloc1, "bundle.Read/reread-after-caller-modified-earlier-result")
+				}
 			}
 			c.Sig("%s%s", lb.Version, kind)
 		})
